@@ -119,6 +119,37 @@ package keylock
 //@   loop 1
 //@     invariant !held(d.locker)
 //
+// Unlocks / RUnlocks: inside ONE critical section every listed key loses exactly one registration (the entry is freed
+// when that was the last one), nothing else changes; the caller still holds the registrations it made (atlock)
+//@ func TKeyLocker.Unlocks
+//@   requires d != nil && !held(d.locker) && nodup(keys)
+//@   atlock #mine forall a int :: { keys[a] } 0 <= a && a < len(keys) ==> has(d.lockMap, keys[a]) && d.lockMap[keys[a]].writeCount >= 1
+//@   atunlock #all forall a int :: { keys[a] } 0 <= a && a < len(keys) ==> wcnt(d, keys[a]) == old(wcnt(d, keys[a])) - 1 && rcnt(d, keys[a]) == old(rcnt(d, keys[a]))
+//@   atunlock #others forall k T :: { has(d.lockMap, k) } (forall a int :: { keys[a] } 0 <= a && a < len(keys) ==> keys[a] != k) ==> has(d.lockMap, k) == old(has(d.lockMap, k)) && d.lockMap[k] == old(d.lockMap[k]) && wcnt(d, k) == old(wcnt(d, k)) && rcnt(d, k) == old(rcnt(d, k))
+//@   opt keeps-lock
+//@   modifies mapsof(d.lockMap), wrapLocker.readCount, wrapLocker.writeCount
+//@   loop 1
+//@     invariant wheld(d.locker) && d.lockMap != nil && 0 <= idx$1 && idx$1 <= len(keys)
+//@     invariant #entries forall k T :: { has(d.lockMap, k) } has(d.lockMap, k) ==> d.lockMap[k] != nil && allocated(d.lockMap[k]) && d.lockMap[k].readCount >= 0 && d.lockMap[k].writeCount >= 0 && d.lockMap[k].readCount + d.lockMap[k].writeCount > 0
+//@     invariant #distinct forall k1 T, k2 T :: { has(d.lockMap, k1), has(d.lockMap, k2) } has(d.lockMap, k1) && has(d.lockMap, k2) && k1 != k2 ==> d.lockMap[k1] != d.lockMap[k2]
+//@     invariant #done forall a int :: { keys[a] } 0 <= a && a < idx$1 ==> wcnt(d, keys[a]) == cs(wcnt(d, keys[a])) - 1 && rcnt(d, keys[a]) == cs(rcnt(d, keys[a]))
+//@     invariant #todo forall a int :: { keys[a] } idx$1 <= a && a < len(keys) ==> has(d.lockMap, keys[a]) && d.lockMap[keys[a]] == cs(d.lockMap[keys[a]]) && d.lockMap[keys[a]].writeCount >= 1 && wcnt(d, keys[a]) == cs(wcnt(d, keys[a])) && rcnt(d, keys[a]) == cs(rcnt(d, keys[a]))
+//@     invariant #others forall k T :: { has(d.lockMap, k) } (forall a int :: { keys[a] } 0 <= a && a < len(keys) ==> keys[a] != k) ==> has(d.lockMap, k) == cs(has(d.lockMap, k)) && d.lockMap[k] == cs(d.lockMap[k]) && wcnt(d, k) == cs(wcnt(d, k)) && rcnt(d, k) == cs(rcnt(d, k))
+//@ func TKeyLocker.RUnlocks
+//@   requires d != nil && !held(d.locker) && nodup(keys)
+//@   atlock #mine forall a int :: { keys[a] } 0 <= a && a < len(keys) ==> has(d.lockMap, keys[a]) && d.lockMap[keys[a]].readCount >= 1
+//@   atunlock #all forall a int :: { keys[a] } 0 <= a && a < len(keys) ==> rcnt(d, keys[a]) == old(rcnt(d, keys[a])) - 1 && wcnt(d, keys[a]) == old(wcnt(d, keys[a]))
+//@   atunlock #others forall k T :: { has(d.lockMap, k) } (forall a int :: { keys[a] } 0 <= a && a < len(keys) ==> keys[a] != k) ==> has(d.lockMap, k) == old(has(d.lockMap, k)) && d.lockMap[k] == old(d.lockMap[k]) && wcnt(d, k) == old(wcnt(d, k)) && rcnt(d, k) == old(rcnt(d, k))
+//@   opt keeps-lock
+//@   modifies mapsof(d.lockMap), wrapLocker.readCount, wrapLocker.writeCount
+//@   loop 1
+//@     invariant wheld(d.locker) && d.lockMap != nil && 0 <= idx$1 && idx$1 <= len(keys)
+//@     invariant #entries forall k T :: { has(d.lockMap, k) } has(d.lockMap, k) ==> d.lockMap[k] != nil && allocated(d.lockMap[k]) && d.lockMap[k].readCount >= 0 && d.lockMap[k].writeCount >= 0 && d.lockMap[k].readCount + d.lockMap[k].writeCount > 0
+//@     invariant #distinct forall k1 T, k2 T :: { has(d.lockMap, k1), has(d.lockMap, k2) } has(d.lockMap, k1) && has(d.lockMap, k2) && k1 != k2 ==> d.lockMap[k1] != d.lockMap[k2]
+//@     invariant #done forall a int :: { keys[a] } 0 <= a && a < idx$1 ==> rcnt(d, keys[a]) == cs(rcnt(d, keys[a])) - 1 && wcnt(d, keys[a]) == cs(wcnt(d, keys[a]))
+//@     invariant #todo forall a int :: { keys[a] } idx$1 <= a && a < len(keys) ==> has(d.lockMap, keys[a]) && d.lockMap[keys[a]] == cs(d.lockMap[keys[a]]) && d.lockMap[keys[a]].readCount >= 1 && wcnt(d, keys[a]) == cs(wcnt(d, keys[a])) && rcnt(d, keys[a]) == cs(rcnt(d, keys[a]))
+//@     invariant #others forall k T :: { has(d.lockMap, k) } (forall a int :: { keys[a] } 0 <= a && a < len(keys) ==> keys[a] != k) ==> has(d.lockMap, k) == cs(has(d.lockMap, k)) && d.lockMap[k] == cs(d.lockMap[k]) && wcnt(d, k) == cs(wcnt(d, k)) && rcnt(d, k) == cs(rcnt(d, k))
+//
 // ---- sharded groups, single-key routing: a key always goes to the shard the group's index function names - the
 // same function the multi-key path uses (calKeyFn), so single-key and multi-key callers of one key meet at one locker ----
 //@ opaque gshard(key interface{}) int
